@@ -1,6 +1,6 @@
 (* C13 -- non-exported glyphs vanish without altering the remaining glyphs. *)
-From Coq Require Import QArith Qcanon.
-From U2F Require Import Base.Prelude Geometry.Model Geometry.ModelProofs Geometry.Cff Geometry.Filters Geometry.SkipProofs.
+From Coq Require Import QArith Qcanon List Permutation.
+From U2F Require Import Base.Prelude Geometry.Model Geometry.ModelProofs Geometry.Cff Geometry.Filters Geometry.SkipProofs Geometry.SkipRenderProofs.
 Open Scope Qc_scope.
 
 (* references to skipped glyphs are replaced by their content: none is left *)
@@ -21,3 +21,25 @@ Theorem C13_inlined_content_renders_the_same : forall a t c,
   det a <> qc0 -> det t <> qc0 -> wf_closed c -> place (compose a t) c = place a (place t c).
 Proof. exact place_compose. Qed.
 Print Assumptions C13_inlined_content_renders_the_same.
+
+(* ONE GLYPH: the filtered glyph resolves to a permutation of the contours the glyph resolved to
+   (inlined contours move in front of the remaining components) -- all glyph sets with non-singular
+   component matrices and closed contours, all skip lists, any nesting of skipped glyphs *)
+Theorem C13_filtered_glyph_renders_the_same_contours : forall gs skip g g',
+  wf_glyphset_P gs -> wf_glyph_P g -> skip_glyph gs skip g = Some g' ->
+  forall F r, resolve F gs g = Some r -> exists r', resolve F gs g' = Some r' /\ Permutation r r'.
+Proof. exact skip_glyph_render. Qed.
+Print Assumptions C13_filtered_glyph_renders_the_same_contours.
+
+(* THE WHOLE FILTER: skipped names are gone and the others keep their relative order; every remaining glyph
+   keeps its advance and anchors, references no skipped glyph, and -- resolved in the FILTERED glyph set --
+   renders a permutation of the contours it rendered in the source *)
+Theorem C13_skip_filter_preserves_rendering : forall gs skip gs',
+  wf_glyphset_P gs -> skip_filter gs skip = Some gs' ->
+  keys gs' = filter (fun n => negb (mem n skip)) (keys gs) /\
+  forall n g, assoc n gs = Some g -> mem n skip = false ->
+    exists g', assoc n gs' = Some g' /\ gwidth g' = gwidth g /\ ganchors g' = ganchors g /\
+      (forall k, In k (gcomps g') -> mem (fst k) skip = false) /\
+      forall F r, resolve F gs g = Some r -> exists r', resolve F gs' g' = Some r' /\ Permutation r r'.
+Proof. exact skip_filter_preserves_rendering. Qed.
+Print Assumptions C13_skip_filter_preserves_rendering.
